@@ -1,7 +1,8 @@
 import Usual.C02.Parse
 /-! Model driver for C02: same op lines as `harness/C02/h.c`.
 
-* `d <hex>` — `Usual.C02.parse` with the four option sets (bits 0..3), `strtod` instantiated
+* `d <hex>` — `Usual.C02.parse` with the four option sets (bits 0..3) and with `Opts.default`
+  (a context on which `json_set_options` was never called), `strtod` instantiated
   by `Usual.C02.strtodModel` (exact big-integer decimal → binary64);
 * `s <hex> …` — several documents on one context: the model is stateless per `json_parse` call
   (the call resets the parser), so each document is parsed afresh; results grouped per option set;
@@ -10,12 +11,17 @@ open Usual Usual.C02
 
 def opD (doc : List UInt8) : String :=
   let r := fun (n : Nat) => dumpRes (parse strtodModel (Opts.ofBits n) doc)
-  r 0 ++ " | " ++ r 1 ++ " | " ++ r 2 ++ " | " ++ r 3
+  r 0 ++ " | " ++ r 1 ++ " | " ++ r 2 ++ " | " ++ r 3 ++ " | " ++
+    dumpRes (parse strtodModel Opts.default doc)
 
 def opS (docs : List (List UInt8)) : String :=
   let grp := fun (n : Nat) =>
     " ; ".intercalate (docs.map fun d => dumpRes (parse strtodModel (Opts.ofBits n) d))
-  grp 0 ++ " | " ++ grp 1 ++ " | " ++ grp 2 ++ " | " ++ grp 3
+  -- fifth group: a context that never saw json_set_options for the first document
+  -- (`Opts.default`), then json_set_options(ctx, i % 4) before document i >= 1
+  let mixed := " ; ".intercalate ((List.range docs.length).zip docs |>.map fun (i, d) =>
+    dumpRes (parse strtodModel (if i == 0 then Opts.default else Opts.ofBits (i % 4)) d))
+  grp 0 ++ " | " ++ grp 1 ++ " | " ++ grp 2 ++ " | " ++ grp 3 ++ " | " ++ mixed
 
 def stepLine (_ : Unit) (line : String) : Unit × String :=
   if line.trimAscii.toString == "#case" then ((), "#case") else
